@@ -467,6 +467,7 @@ def run(ctx):
     if quick:
         ties = ties[(ctx.seed % 2)::2] + ties[:1]
     ties = ties + msc_scenarios(ctx.rng, quick)       # forced scenario runs
+    ties = ties + c01.init_charge_scenarios()[:3]     # init_charge, more primaries than slots
     msc_cnt = {}
     for i in range(-len(corpus) - len(ties), n_runs):
         if i < -len(corpus):
